@@ -403,6 +403,44 @@ def inclusion_sites(ctx, f, name, _seen=None):
                 out.append((x, x.args[0], set(dom_guard(ctx, f, n.id)), loops))
     return out
 
+def same_object(f, name, nid):
+    """(other name, other node id) -> bool: `other name` at that node can hold the very object `name` holds on entry to node nid
+    (they share a defining expression, plain aliases followed; reaching definitions, not spelling)"""
+    from ..engine import origins
+    mine = {id(o) if not isinstance(o, str) else o for o in origins(f, name, nid)}
+
+    def test(other, at):
+        return bool(mine & {id(o) if not isinstance(o, str) else o for o in origins(f, other, at)})
+    return test
+
+
+def container_mutations(ctx, f, is_container):
+    """CFG node ids of f where the container `is_container(expr)` accepts - written out, or through a local that holds it - is
+    changed in place or replaced: `del c[..]`, `c[..] = ..`, `c = ..` (for an attribute), `c.<mutator>(..)`"""
+    from ..engine import deref
+    cfg = cfg_of(f)
+
+    def names_it(e):
+        return e is not None and (is_container(e) or (isinstance(e, ast.Name) and is_container(deref(f, e))))
+    out = []
+    for n in cfg.nodes:
+        if n.kind != "stmt":
+            continue
+        st = n.ast
+        hit = False
+        if isinstance(st, ast.Delete):
+            hit = any(isinstance(t_, ast.Subscript) and names_it(t_.value) for t_ in st.targets)
+        elif isinstance(st, (ast.Assign, ast.AugAssign)):
+            tg = st.targets if isinstance(st, ast.Assign) else [st.target]
+            hit = any((isinstance(t_, ast.Subscript) and names_it(t_.value)) or (isinstance(t_, ast.Attribute) and is_container(t_)) for t_ in tg)
+        if not hit:
+            hit = any(isinstance(x, ast.Call) and isinstance(x.func, ast.Attribute) and x.func.attr in _MUTATORS and names_it(x.func.value)
+                      for x in cfg.node_walk(n.id))
+        if hit:
+            out.append(n.id)
+    return out
+
+
 def value_pred(f, pred):
     """text -> bool: the text of an atom's operand stands for a value `pred` accepts - written out, or a local that is defined
     as such a value (so `resource > lur` and `int(result[attr]) > rec.largest_update_resource` read the same)"""
